@@ -176,6 +176,16 @@ def job_case(args: dict) -> dict:
         out["acs_row"] = [[int(v) for v in x[0]] for x in a]
         if conf["gen"] in RC.TWO_D:
             out["acs_bits"] = [[int(v) for v in x.reshape(-1)] for x in a]
+    if len(conf["accelerations"]) > 1 and not conf.get("kwargs", {}).get("uniform_range"):
+        # what each configured pair alone gives as ACS: single-pair instances of the same generator (real code, no glue)
+        out["pair_L"] = []
+        for a_i, c_i in zip(conf["accelerations"], conf["center_fractions"]):
+            one = RC.run_call(RC.build(dict(conf, accelerations=[a_i], center_fractions=[c_i])), shape, True, seed)
+            if one["err"] is not None:
+                out["pair_L"].append(-1)
+                continue
+            arr = _frames(one.pop("_array"), conf, shape)
+            out["pair_L"].append(int(arr[0].sum()) if conf["gen"] in RC.TWO_D else int(arr[0].sum()) // rows)
     pframes = []      # one record per `poisson` invocation (= per frame): accelerations the tolerance test saw, returned count
     if conf["gen"] == "VariableDensityPoisson":
         import sys
@@ -184,7 +194,7 @@ def job_case(args: dict) -> dict:
 
         def tracer(frame, event, arg):
             if event == "call" and frame.f_code is pcode:
-                rec = {"tested": [], "ret": None, "last": None}
+                rec = {"tested": [], "slopes": [], "ret": None, "last": None}
                 pframes.append(rec)
 
                 def local(frame, event, arg):
@@ -192,6 +202,7 @@ def job_case(args: dict) -> dict:
                     if v is not None and v is not rec["last"]:
                         rec["last"] = v
                         rec["tested"].append(float(v))
+                        rec["slopes"].append(float(frame.f_locals.get("slope", float("nan"))))
                     if event == "return" and arg is not None:
                         rec["ret"] = int(np.asarray(arg).sum())      # the mask the caller gets
                     return local
@@ -233,6 +244,80 @@ def job_case(args: dict) -> dict:
             a2 = np.array(out["acs_bits"][min(f, len(out["acs_bits"]) - 1)]).reshape(rows, cols).tolist()
             out["cands"].append(_cands_2d(e["seed"], k, rows, cols, rows // 2, cols // 2, 6 * math.sqrt(rows // 2),
                                           6 * math.sqrt(cols // 2), a2))
+    return out
+
+
+def job_forms(args: dict) -> dict:
+    """the same seeded call through every way the repository reaches a generator: argument forms of `shape` (tuple, list,
+    numpy array as `apply_mask` builds it, torch.Size, extra leading axes), `CreateSamplingMask` (shape from the k-space,
+    seed from the file name, fixed / partly fixed shapes), `apply_mask` (mask function form), and an unseeded call"""
+    import numpy as np
+    import torch
+    from direct.data import transforms as T
+    from direct.data.mri_transforms import CreateSamplingMask
+
+    conf, shape, seed = args["conf"], tuple(args["shape"]), args["seed"]
+    rows, cols = shape[-3], shape[-2]
+    mf = RC.build(conf)
+    out = {"forms": {}, "err": None}
+
+    def frames(m):
+        return [int(x) for x in _frames(np.asarray(m), conf, shape).reshape(-1, rows * cols).sum(1)]
+
+    try:
+        base = mf(shape, seed=seed)
+    except Exception as e:  # noqa: BLE001
+        out["err"] = type(e).__name__
+        return out
+    out["base"] = frames(base)
+    out["acs"] = frames(mf(shape, return_acs=True, seed=seed))
+
+    def same(name, thunk, expect=None):
+        try:
+            m = thunk()
+            ref = base if expect is None else expect
+            ok = m.numel() == ref.numel() and bool((m.reshape(ref.shape) == ref).all()) and m.dtype == ref.dtype
+            out["forms"][name] = {"same": ok, "counts": frames(m) if m.numel() == base.numel() else None, "shape": list(m.shape)}
+        except Exception as e:  # noqa: BLE001
+            out["forms"][name] = {"err": f"{type(e).__name__}: {e}"[:160]}
+
+    same("list", lambda: mf(list(shape), seed=seed))
+    same("ndarray", lambda: mf(np.array(shape), seed=seed))
+    same("torch.Size", lambda: mf(torch.Size(shape), seed=seed))
+    same("keyword", lambda: mf(shape=shape, seed=seed, return_acs=False))
+    if conf["gen"] not in RC.KT:
+        same("leading-axes", lambda: mf((2, 3) + shape, seed=seed))
+    # call sites
+    fname = "file_%d.h5" % (seed % 1000)
+    fseed = tuple(map(ord, fname))
+    ks = torch.ones((3,) + shape)
+    try:
+        ref = mf(shape, seed=fseed)
+    except Exception as e:  # noqa: BLE001
+        ref = None
+        out["forms"]["CreateSamplingMask"] = {"err": f"reference call: {type(e).__name__}"}
+    if ref is not None:
+        same("CreateSamplingMask", lambda: CreateSamplingMask(mf, use_seed=True)({"kspace": ks, "filename": fname})["sampling_mask"], ref)
+        same("CreateSamplingMask/fixed-shape",
+             lambda: CreateSamplingMask(mf, shape=shape[:-1], use_seed=True)({"kspace": ks[..., :1, :], "filename": fname})["sampling_mask"], ref)
+        same("CreateSamplingMask/none-entries",
+             lambda: CreateSamplingMask(mf, shape=tuple(None if i % 2 else v for i, v in enumerate(shape[:-1])), use_seed=True)(
+                 {"kspace": ks, "filename": fname})["sampling_mask"], ref)
+        same("CreateSamplingMask/acs+mask",
+             lambda: CreateSamplingMask(mf, use_seed=True, return_acs=True)({"kspace": ks, "filename": fname})["sampling_mask"], ref)
+    same("apply_mask", lambda: T.apply_mask(ks, mf, seed=seed)[1])
+    try:
+        mk = T.apply_mask(ks, mf, seed=seed, return_mask=False)
+        nz = (mk != 0).all(-1).all(0)          # coil- and complex-wise: a position is kept or dropped as a whole
+        out["forms"]["apply_mask/kept"] = {"same": bool((nz == base[0, ..., 0].expand(nz.shape)).all()),
+                                           "counts": frames(nz), "shape": list(nz.shape)}
+    except Exception as e:  # noqa: BLE001
+        out["forms"]["apply_mask/kept"] = {"err": f"{type(e).__name__}: {e}"[:160]}
+    # unseeded: budget only
+    try:
+        out["unseeded"] = frames(mf(shape))
+    except Exception as e:  # noqa: BLE001
+        out["unseeded_err"] = type(e).__name__
     return out
 
 
@@ -337,13 +422,22 @@ def gen_cases(ctx: Ctx) -> list[dict]:
             if multi:        # several (acceleration, centre fraction) pairs per instance: the call draws which one it uses
                 Rs = [_R(rng) for _ in range(multi)]
                 conf["accelerations"] = Rs
-                conf["center_fractions"] = [_cf_for(r, rng, two_d) for r in Rs]
+                cfs = [_cf_for(r, rng, two_d) for r in Rs]
+                if cart:
+                    cfs = [max(2, int(round(cols * x))) for x in cfs]
+                conf["center_fractions"] = cfs
             if uniform:      # public API with uniform_range=True: documented as not implemented, must be rejected
                 conf["kwargs"] = {"uniform_range": True}
             if gen == "VariableDensityPoisson":
                 # constructor options that affect the budget
                 kw = {"crop_corner": i % 2 == 1}
-                if rng.random() < 0.4:
+                if i % 8 == 5:
+                    # a tolerance finer than the granularity of rows*cols/count on a small grid: the bisection runs until
+                    # the binary64 midpoint stops moving, then the code must raise ValueError (never return, never spin)
+                    rows, cols = rng.choice([24, 32]), rng.choice([24, 32])
+                    shape = ([rng.randint(2, 3)] if dyn else []) + [rows, cols, 2]
+                    kw["tol"] = rng.choice([0.001, 0.002])
+                elif rng.random() < 0.4:
                     kw["tol"] = rng.choice([0.1, 0.3, 0.5])
                 if rng.random() < 0.3:
                     kw["max_attempts"] = rng.choice([5, 30])
@@ -364,14 +458,23 @@ def gen_cases(ctx: Ctx) -> list[dict]:
     add("Gaussian2D", q(9, 36), [16, 24, 32, 33, 48, 64], two_d=True, infeasible=0.15)
     add("VariableDensityPoisson", q(16, 60), [32, 40, 48, 51, 64, 65, 96, 128], two_d=True)
     add("KtRadial", q(4, 12), [32, 48, 64], two_d=True, modes=["dynamic"])      # crop_corner on/off: reported, not judged
-    add("Gaussian1D", q(9, 40), None, multi=3)
+    add("Gaussian1D", q(6, 40), None, multi=3)
     add("Gaussian2D", q(4, 16), [16, 24, 32, 48, 64], two_d=True, multi=2)
     add("Gaussian1D", q(3, 9), None, uniform=True)
     add("Gaussian2D", q(2, 6), [16, 32], two_d=True, uniform=True)
+    # the pairing (same drawn index for acceleration and centre fraction) and the uniform_range rejection, every family
+    add("FastMRIRandom", q(3, 12), None, multi=3)
+    add("CartesianRandom", q(3, 12), None, cart=True, multi=2)
+    add("FastMRIEquispaced", q(3, 12), None, multi=3)
+    add("CartesianEquispaced", q(3, 12), None, cart=True, multi=2)
+    add("FastMRIMagic", q(3, 12), None, multi=2)
+    add("VariableDensityPoisson", q(2, 8), [32, 48], two_d=True, multi=2)
+    for g in ("FastMRIRandom", "CartesianEquispaced", "FastMRIMagic"):
+        add(g, q(1, 3), None, cart=g.startswith("Cartesian"), uniform=True)
     add("KtUniform", q(4, 16), [32, 48, 64, 96], two_d=True, modes=["dynamic"])       # budgets reported, not judged
     add("KtGaussian1D", q(4, 16), [32, 48, 64, 96], two_d=True, modes=["dynamic"])
-    add("FastMRIMagic", q(6, 40), None)
-    add("CartesianMagic", q(3, 20), None, cart=True)
+    add("FastMRIMagic", q(9, 40), None, infeasible=0.2)     # characterised exactly (count formula), not judged against N/R
+    add("CartesianMagic", q(6, 20), None, cart=True, infeasible=0.2)
     if ctx.thorough:
         add("Gaussian2D", 6, [96, 128], two_d=True, modes=["static"])
     return cases
@@ -432,6 +535,26 @@ def _run_cases(ctx: Ctx, store: dict):
                 store["crashes"].append(_classify_crash({k: c[k] for k in ("conf", "shape", "seed")}, str(e)))
                 continue
             store["cases"].append(c)
+        # argument forms and call sites (CreateSamplingMask, apply_mask)
+        store["forms"] = []
+        fr = ctx.rng
+        fgens = ["FastMRIRandom", "FastMRIEquispaced", "CartesianEquispaced", "Gaussian1D", "Gaussian2D", "VariableDensityPoisson",
+                 "FastMRIMagic", "CartesianRandom"]
+        for i in range(ctx.budget(16, 64)):
+            g = fgens[i % len(fgens)]
+            mode = RC.MODES[(i // len(fgens) + i) % 3]
+            R = _R(fr)
+            two_d = g in RC.TWO_D
+            rows, cols = (fr.choice([24, 32, 40]), fr.choice([24, 33, 48])) if two_d else (fr.choice([1, 3]), fr.randint(32, 200))
+            cf = _cf_for(R, fr, two_d)
+            if g.startswith("Cartesian"):
+                cf = max(2, int(round(cols * cf)))
+            shape = ([fr.randint(2, 3)] if mode != "static" else []) + [rows, cols, 2]
+            conf = {"gen": g, "accelerations": [R], "center_fractions": [cf], "mode": mode}
+            fc = {"conf": conf, "shape": shape, "seed": fr.randrange(2 ** 31)}
+            r = _safe(store, w, "job_forms", fc, 60, fc)
+            if r is not None:
+                store["forms"].append(dict(fc, res=r))
         # equispaced enumeration on the implementation
         widths = list(range(32, 401)) if ctx.thorough else sorted(set(range(32, 401, 13)) | {33, 399, 400})
         pairs = [("FastMRIEquispaced", R, cf) for R in ENUM_R for cf in ENUM_CF]
@@ -491,13 +614,74 @@ def _chosen_R(c):
     return accs[i] if i is not None and i < len(accs) else accs[0]
 
 
+def _chosen_cf(c):
+    i = _choice(c["res"])
+    cfs = c["conf"]["center_fractions"]
+    return cfs[i] if i is not None and i < len(cfs) else cfs[0]
+
+
+def _magic_lraw(N: int, cf) -> int:
+    """`num_low_freqs` of MagicMaskFunc before the cap, float glue as coded (count when > 1, else rounded fraction)"""
+    return int(cf) if cf > 1 else int(round(N * cf))
+
+
+def _high_of(req: str) -> int | None:
+    import re
+
+    m = re.search(r"\('high', (-?\d+)\)", req or "")
+    return int(m.group(1)) if m else None
+
+
 def _frame_draws(log, method):
     return [e for e in log if e["kind"] == "draw" and e["method"] == method and e["func"] != "choose_acceleration"]
 
 
+_LINE_CASE: dict = {}
+
+
 def correspondence(ctx: Ctx):
+    _LINE_CASE.clear()
+    for item in _correspondence(ctx, _RUN):
+        src = item.pop("src", None)
+        if src is not None:
+            _LINE_CASE[item["line"]] = src
+        yield item
+
+
+def _correspondence(ctx: Ctx, run: dict):
     skipped_fragile = 0
-    for c in _RUN["cases"]:
+    for c in run["cases"]:
+        for item in _case_lines(ctx, c):
+            item["src"] = {"op": "case", "conf": c["conf"], "shape": c["shape"], "seed": c["seed"]}
+            yield item
+    # exhaustive enumeration: every offset of every (N, R, cf)
+    for e in run["enum"]:
+        if e.get("err") and "L" not in e:
+            continue
+        N, L, R = e["N"], e["L"], e["R"]
+        Rq = frac(R)
+        Rn, Rd = _q(R)
+        src = {"op": "enum", "gen": e["gen"], "N": N, "R": R, "cf": e["cf"]}
+        if e["err"] is not None:
+            exp = "err " + e["err"]
+            yield {"line": line("equienum", [N, L, Rn, Rd]), "impl": (lambda a=exp: a), "nontrivial": True,
+                   "bucket": f"equienum/rejected-{e['err']}", "src": src}
+            continue
+        if equi_fragile(N, L, Rq):
+            skipped_fragile += 1
+            continue
+        ans = "ok %d | %s" % (len(e["counts"]), " ".join(map(str, e["counts"])))
+        yield {"line": line("equienum", [N, L, Rn, Rd]), "impl": (lambda a=ans: a),
+               "nontrivial": any(cc > L for cc in e["counts"]), "bucket": f"equienum/{e['gen']}", "src": src}
+    skipped_fragile += run.get("_fragile_cases", 0)
+    ctx.notes.append(f"equispaced: {skipped_fragile} tie-fragile configurations excluded from the exact comparison "
+                     f"(non-dyadic adjusted acceleration with an exact half-integer grid point / exact integer grid length); "
+                     f"they are covered by the oracle's bound")
+
+
+def _case_lines(ctx: Ctx, c: dict):
+    skipped_fragile = 0
+    for c in [c]:
         conf, res, shape = c["conf"], c["res"], c["shape"]
         gen, mode = conf["gen"], conf["mode"]
         R = _chosen_R(c)
@@ -506,18 +690,25 @@ def correspondence(ctx: Ctx):
         rows = shape[-3]
         multi = len(conf["accelerations"]) > 1
         uniform = bool(conf.get("kwargs", {}).get("uniform_range"))
-        if gen == "Gaussian1D" and (multi or uniform):
-            # which pair the call uses (public API: several accelerations per instance / uniform_range=True)
+        if multi or uniform:
+            # which pair the call uses (public API: several accelerations per instance / uniform_range=True): the model
+            # selects acceleration and #ACS of the drawn position; #ACS of every pair alone comes from single-pair
+            # instances of the real generator, the realised #ACS from the return_acs call with the same seed
             flat = lambda xs: [v for x in xs for v in _q(x)]  # noqa: E731
             ch = _choice(res)
-            if res["err"] is not None:
-                ans = "err " + res["err"]
+            if uniform:
+                ans = "err " + str(res["err"] or res["acs_err"])
+                pl = []
+            elif res.get("acs_count") and ch is not None and res.get("pair_L"):
+                real_L = res["acs_count"][0] if gen in RC.TWO_D else res["acs_count"][0] // rows
+                ans = "ok %d %d %d %d" % (ch, Rn, Rd, real_L)
+                pl = res["pair_L"]
             else:
-                k0 = [e for e in res["log"] if e["kind"] == "kernel"][0]["ints"][0]
-                ans = "ok %d %d %d" % (ch, res["acs_count"][0] // rows, k0)
-            yield {"line": line("gchoose", [N, 1 if uniform else 0, ch if ch is not None else 0], flat(conf["accelerations"]),
-                                flat(conf["center_fractions"])), "impl": (lambda a=ans: a), "nontrivial": True,
-                   "bucket": "gchoose/" + ("uniform_range-rejected" if uniform else f"pair{ch}of{len(conf['accelerations'])}")}
+                ans = pl = None
+            if ans is not None:
+                yield {"line": line("choose", [1 if uniform else 0, ch if ch is not None else 0], flat(conf["accelerations"]), pl),
+                       "impl": (lambda a=ans: a), "nontrivial": True,
+                       "bucket": f"choose/{gen}/" + ("uniform_range-rejected" if uniform else f"pair{ch}of{len(conf['accelerations'])}")}
         if res["acs_err"] is not None and gen not in ("FastMRIEquispaced", "CartesianEquispaced"):
             continue
         L = res["acs_count"][0] // rows if res.get("acs_count") and gen not in RC.TWO_D else None
@@ -543,7 +734,7 @@ def correspondence(ctx: Ctx):
             for f, e in enumerate(offs):
                 off = e["value"][0]
                 if equi_fragile(N, L, Rq, off):
-                    skipped_fragile += 1
+                    _RUN["_fragile_cases"] = _RUN.get("_fragile_cases", 0) + 1
                     continue
                 acs_row = res["acs_row"][min(f, len(res["acs_row"]) - 1)]
                 cnt = sum(res["row"][f])
@@ -571,29 +762,23 @@ def correspondence(ctx: Ctx):
                 yield {"line": line("gauss2d", [rows, N, Rn, Rd], res["acs_bits"][min(f, len(res["acs_bits"]) - 1)], res["cands"][f]),
                        "impl": (lambda a=ans: a), "nontrivial": k >= 0,
                        "bucket": f"gauss2d/{mode}/" + ("multi/" if multi else "") + ("feasible" if k >= 0 else "infeasible")}
+        elif gen.endswith("Magic"):
+            l_raw = _magic_lraw(N, _chosen_cf(c))
+            offs = _frame_draws(res["log"], "randint")
+            if res["err"] is not None:
+                ans = "err " + res["err"]
+                offsets = []
+            else:
+                offsets = [e["value"][0] for e in offs]
+                adj = _high_of(offs[0]["req"]) if offs else None
+                ans = "ok %d %d | %s | %s" % (L, adj if adj is not None else -1,
+                                             " ".join("%d %d" % (sum(r), sum(r)) for r in res["row"]),
+                                             " | ".join(" ".join(map(str, r)) for r in res["row"]))
+            yield {"line": line("magic", [N, l_raw, Rn, Rd], offsets), "impl": (lambda a=ans: a),
+                   "nontrivial": res["err"] is not None or any(sum(r) > L for r in res["row"]),
+                   "bucket": f"magic/{gen}/{mode}" + ("" if res["err"] is None else "/rejected-" + res["err"])}
         elif gen == "VariableDensityPoisson":
             yield from _poisson_cases(c)
-    # exhaustive enumeration: every offset of every (N, R, cf)
-    for e in _RUN["enum"]:
-        if e.get("err") and "L" not in e:
-            continue
-        N, L, R = e["N"], e["L"], e["R"]
-        Rq = frac(R)
-        Rn, Rd = _q(R)
-        if e["err"] is not None:
-            exp = "err " + e["err"]
-            yield {"line": line("equienum", [N, L, Rn, Rd]), "impl": (lambda a=exp: a), "nontrivial": True,
-                   "bucket": f"equienum/rejected-{e['err']}"}
-            continue
-        if equi_fragile(N, L, Rq):
-            skipped_fragile += 1
-            continue
-        ans = "ok %d | %s" % (len(e["counts"]), " ".join(map(str, e["counts"])))
-        yield {"line": line("equienum", [N, L, Rn, Rd]), "impl": (lambda a=ans: a),
-               "nontrivial": any(cc > L for cc in e["counts"]), "bucket": f"equienum/{e['gen']}"}
-    ctx.notes.append(f"equispaced: {skipped_fragile} tie-fragile configurations excluded from the exact comparison "
-                     f"(non-dyadic adjusted acceleration with an exact half-integer grid point / exact integer grid length); "
-                     f"they are covered by the oracle's bound")
 
 
 def _post_flags():
@@ -605,35 +790,30 @@ def _post_flags():
 def _poisson_cases(c):
     conf, res, shape = c["conf"], c["res"], c["shape"]
     rows, cols = shape[-3], shape[-2]
-    R = conf["accelerations"][0]
+    R = _chosen_R(c)
     kw = conf.get("kwargs", {})
     tol = kw.get("tol", 0.2)
     Rn, Rd = _q(R)
     tn, td = _q(tol)
     flags = _post_flags()
     opts = "crop" if kw.get("crop_corner") else "nocrop"
+    lo0, hi0 = (kw["slopes"][0], kw["slopes"][1]) if kw.get("slopes") else (0, max(rows, cols))
+    (lon, lod), (hin, hid) = _q(lo0), _q(hi0)
     for rec in res["poisson_frames"]:
-        # replica of the interval bookkeeping (floats, as in the code) to know when the midpoint stalls
-        lo, hi = (float(kw["slopes"][0]), float(kw["slopes"][1])) if kw.get("slopes") else (0.0, float(max(rows, cols)))
-        groups = []
-        for actual in rec["tested"]:
-            slope = (hi + lo) / 2
-            stalled = slope in (lo, hi)
-            an, ad = actual.as_integer_ratio()     # the double the code compares, exactly
-            groups += [an, ad, 1 if stalled else 0]
-            if actual < R:
-                lo = slope
-            else:
-                hi = slope
+        # the interval bookkeeping (midpoint in binary64, stall test, which end moves) is the model's: it gets the
+        # initial interval, the accelerations the tolerance test saw and the slopes the real loop probed
+        accs = [v for a in rec["tested"] for v in a.as_integer_ratio()]
+        slopes = [v for sl in rec["slopes"] for v in sl.as_integer_ratio()]
         if rec["ret"] is not None:
             # acceleration of the mask the caller gets
             fn, fd = (rows * cols / rec["ret"]).as_integer_ratio() if rec["ret"] else (0, 1)
-            ans = "ok 0 %d %d %d" % (len(rec["tested"]), fn, fd)
+            ans = "ok 0 %d %d %d -1" % (len(rec["tested"]), fn, fd)
         else:
-            ans = "ok 1 %d 0 1" % len(rec["tested"])
-        yield {"line": line("bisect", [Rn, Rd, tn, td], groups, flags), "impl": (lambda a=ans: a),
+            ans = "ok 1 %d 0 1 -1" % len(rec["tested"])
+        yield {"line": line("bisectiv", [Rn, Rd, tn, td, lon, lod, hin, hid], accs, slopes, flags), "impl": (lambda a=ans: a),
                "nontrivial": len(rec["tested"]) >= 2,
-               "bucket": f"poisson/{conf['mode']}/{opts}/" + ("returned" if rec["ret"] is not None else "raised")}
+               "bucket": f"poisson/{conf['mode']}/{opts}/" + ("slopes/" if kw.get("slopes") else "")
+                         + ("returned" if rec["ret"] is not None else "raised")}
 
 
 # -------------------------------------------------------------------------------------------------
@@ -723,11 +903,63 @@ def oracle(ctx: Ctx, deep: bool = False):
                 wk = "ktradial_crop" if conf.get("kwargs", {}).get("crop_corner") else "ktradial"
                 worst[wk] = max(worst[wk], abs(total / cnt - R) if cnt else float("inf"))
             elif gen.endswith("Magic"):
+                # not judged against N/R (integer adjusted acceleration, by design); judged against what the generator
+                # documents: step = round(N / (round(N/R) - #ACS)) and a comb of that step over the non-ACS columns
                 magic_dev = max(magic_dev, dev)
+                offs = _frame_draws(res["log"], "randint")
+                adj = _high_of(offs[0]["req"]) if offs else None
+                t = int(round(cols / R))
+                exp_adj = int(round(cols / (t - L))) if t - L > 0 else 0
+                if adj != exp_adj:
+                    yield Violation(f"magic-step/{gen}", f"{gen}: offsets drawn below {adj}, expected round(N / (round(N/R) - #ACS)) = {exp_adj}",
+                                    dict(rep, frame=f, observed=adj, expected=exp_adj, acs=L))
+                elif adj and not (adj * (cnt - L) <= (cols - L) + 2 * (adj - 1) and (cols - L) <= adj * (cnt - L) + 2 * (adj + 1)):
+                    yield Violation(f"magic-bracket/{gen}", f"{gen}: {cnt - L} non-ACS columns sampled with step {adj} over {cols - L} "
+                                    f"non-ACS columns: outside the comb bracket (N-L)/step -2-2/step .. +2-2/step",
+                                    dict(rep, frame=f, observed=cnt, acs=L, step=adj))
         if gen in ("KtUniform", "KtGaussian1D") and sum(counts):
             # k-t masks: the budget is over the whole (frames x rows x cols) volume; reported, not judged
             real = len(counts) * total / sum(counts)
             kt_report.setdefault(gen, []).append(round(real - R, 3))
+    # argument forms / call sites: the same seeded request must give the same mask however it reaches the generator
+    for fc in store.get("forms", []):
+        conf, shape, r = fc["conf"], fc["shape"], fc["res"]
+        gen = conf["gen"]
+        rep = {"op": "forms", "conf": conf, "shape": shape, "seed": fc["seed"]}
+        rows, cols = shape[-3], shape[-2]
+        ctx.count(("forms", gen, conf["mode"], tuple(shape), fc["seed"]), r["err"] is None,
+                  bucket=f"oracle/forms/{gen}/{conf['mode']}" + ("" if r["err"] is None else "/" + r["err"]))
+        if r["err"] is not None:
+            if not gen.endswith("Magic"):
+                yield Violation(f"feasible-call-raises/{gen}", f"{gen} raises {r['err']} for a feasible pair", rep)
+            continue
+        for name, fr_ in sorted(r["forms"].items()):
+            if fr_.get("err"):
+                yield Violation(f"call-form/{name}", f"{gen} reached through `{name}` raises {fr_['err']}", dict(rep, form=name))
+            elif not fr_["same"]:
+                yield Violation(f"call-form/{name}", f"{gen} reached through `{name}` gives a different mask than the direct seeded call "
+                                f"(sampled per frame {fr_['counts']} vs {r['base']}, shape {fr_['shape']})",
+                                dict(rep, form=name, observed=fr_["counts"], expected=r["base"]))
+        # unseeded call: the budget itself
+        uns = r.get("unseeded")
+        if uns is None:
+            if r.get("unseeded_err") and not gen.endswith("Magic"):
+                yield Violation(f"feasible-call-raises/{gen}", f"{gen} unseeded raises {r['unseeded_err']}", dict(rep, seed=None))
+            continue
+        two_d = gen in RC.TWO_D
+        per = 1 if two_d else rows
+        tgt = (rows * cols if two_d else cols) / float(conf["accelerations"][0])
+        for f, cnt in enumerate(uns):
+            cnt, L = cnt // per, r["acs"][min(f, len(r["acs"]) - 1)] // per
+            bad = None
+            if gen.endswith("Equispaced") and abs(cnt - tgt) > 2 + 1e-9:
+                bad = f"|count - N/R| = {abs(cnt - tgt):.3f} > 2 columns"
+            elif gen in ("Gaussian1D", "Gaussian2D") and L + 0.5 <= tgt and abs(cnt - tgt) > 1 + 1e-9:
+                bad = f"|count - N/R| = {abs(cnt - tgt):.3f} > 1 sample"
+            elif gen == "VariableDensityPoisson" and cnt and not abs(rows * cols / cnt - float(conf["accelerations"][0])) < 0.2:
+                bad = f"|R_actual - R| = {abs(rows * cols / cnt - float(conf['accelerations'][0])):.3f} >= tol"
+            if bad:
+                yield Violation(f"unseeded-budget/{gen}", f"{gen} unseeded call: {bad}", dict(rep, seed=None, frame=f, observed=cnt, expected=tgt))
     # enumeration of the equispaced family on the implementation: the property's bound itself
     n_enum = 0
     enum_worst = (0.0, None)
@@ -771,9 +1003,66 @@ def oracle(ctx: Ctx, deep: bool = False):
                      + "; ".join(f"{g} min {min(v):.2f} max {max(v):.2f} over {len(v)}" for g, v in sorted(kt_report.items())))
 
 
+_OP_WHAT = {
+    "random": "random line mask of one frame for the recorded uniforms",
+    "equi": "equispaced frame (count, offset bound, grid columns outside the ACS) for the drawn offset",
+    "equienum": "equispaced counts for every offset the generator can draw",
+    "gauss1d": "Gaussian 1-D request and mask for the replayed libc candidate stream",
+    "gauss2d": "Gaussian 2-D request and count for the replayed libc candidate stream",
+    "choose": "which (acceleration, centre fraction) pair the call uses",
+    "magic": "Magic (offset) frame: #ACS, integer step, count and columns for the drawn offsets",
+    "bisectiv": "VD-Poisson bisection: outcome, iterations, probed slopes (binary64 midpoint), acceleration of the returned mask",
+}
+
+
+def search(ctx: Ctx, dis: list, lean) -> list:
+    """a disagreement between the real code and the model the theorems are about IS a concrete input: report it with the
+    generator call behind the protocol line"""
+    out, seen = [], set()
+    for d in dis:
+        op = d["line"].split(" ", 1)[0]
+        if op in seen:
+            continue
+        seen.add(op)
+        src = _LINE_CASE.get(d["line"], {})
+        out.append(Violation(
+            f"model-mismatch:{op}",
+            f"{_OP_WHAT.get(op, op)} - the implementation answers differently from the model the C07 theorems are proved about: "
+            f"call {json_short(src)} line `{d['line'][:120]}` implementation `{d['impl'][:100]}` model `{d['model'][:100]}`",
+            dict(src, op="corr", src_op=src.get("op"), line=d["line"], observed=d["impl"], expected=d["model"])))
+    return out
+
+
+def json_short(x) -> str:
+    import json
+
+    return json.dumps(x, default=str)[:200]
+
+
+def _replay_corr(rep: dict, w) -> bool:
+    """re-run the generator call behind a protocol line; True when the implementation still answers differently"""
+    ctx = Ctx(PROP, "quick", 0)
+    run = {"cases": [], "enum": []}
+    try:
+        if rep.get("src_op") == "enum":
+            run["enum"] = w.call(MOD, "job_equi_enum", {"pairs": [(rep["gen"], rep["R"], rep["cf"])], "widths": [rep["N"]]}, budget=120)
+        else:
+            c = {"conf": rep["conf"], "shape": rep["shape"], "seed": rep["seed"], "infeasible_by_design": False}
+            c["res"] = w.call(MOD, "job_case", {"conf": c["conf"], "shape": c["shape"], "seed": c["seed"]}, budget=60)
+            run["cases"] = [c]
+    except (RC.Hang, RC.WorkerFailure):
+        return True
+    for item in _correspondence(ctx, run):
+        if item["line"].split(" ", 1)[0] == rep["line"].split(" ", 1)[0] and item["line"] == rep["line"]:
+            return item["impl"]().strip() != rep["expected"].strip()
+    return True      # the call no longer even produces this request: still not what the model says
+
+
 def replay(rep: dict) -> bool:
     w = RC.Worker()
     try:
+        if rep.get("op") == "corr":
+            return _replay_corr(rep, w)
         if rep.get("op") == "case":
             c = {"conf": rep["conf"], "shape": rep["shape"], "seed": rep["seed"], "infeasible_by_design": False}
             try:
@@ -781,6 +1070,13 @@ def replay(rep: dict) -> bool:
             except (RC.Hang, RC.WorkerFailure):
                 return True
             store = {"cases": [c], "hangs": [], "enum": [], "stats": []}
+        elif rep.get("op") == "forms":
+            fc = {"conf": rep["conf"], "shape": rep["shape"], "seed": rep["seed"] if rep.get("seed") is not None else 0}
+            try:
+                r = w.call(MOD, "job_forms", fc, budget=60)
+            except (RC.Hang, RC.WorkerFailure):
+                return True
+            store = {"cases": [], "hangs": [], "enum": [], "stats": [], "forms": [dict(fc, res=r)]}
         elif rep.get("op") == "enum":
             store = {"cases": [], "hangs": [], "stats": [],
                      "enum": w.call(MOD, "job_equi_enum", {"pairs": [(rep["gen"], rep["R"], rep["cf"])], "widths": [rep["N"]]}, budget=60)}
